@@ -631,6 +631,10 @@ class Sim:
         os.environ["HOME"] = self.root
         set_day(self.day)
         random.seed(self.seed)
+        # the process id is a source of nondeterminism too (e.g. in temp-file names):
+        # every simulated process gets a pid derived from its position in the history
+        fake_pid = 30000 + self.nproc
+        os.getpid = lambda: fake_pid  # type: ignore[assignment]
         _install_dirent_order(self.dirent, self.seed)
         # zorg keeps one class-level TemporaryDirectory per interpreter for template
         # builds; forked children would all share the parent's, so each simulated
